@@ -14,7 +14,7 @@ EXPLANATION = (
     "below the next boundary of each of the 10 decades (x is only compared with the boundaries and multiplied once): printed "
     "mantissa * 10^e(prefix) = x with the mantissa in [1,1000), no gap, unbounded top decade, si(0) prints 0. C19.2 reduces db/dbm/idb/idbm "
     "to log-linear normal forms and checks the four compositions reduce to the identity, dbm=db+30, and rejection of negative input "
-    "(ValueError) on the sign classes. C19.7: no conversion writes into its argument. C19.3 compares Q and gaus with their closed forms as polynomial normal forms. C19.4 checks the three "
+    "(ValueError) on the sign classes. C19.7: no conversion writes into its argument, and none that returns an array is memoised (callers would share one mutable result). C19.3 compares Q and gaus with their closed forms as polynomial normal forms. C19.4 checks the three "
     "region predicates of rcos share break points (1-+alpha)/(2T) and the value forms. C19.5 decides dec2bin's range guard on the order classes of num around "
     "2**digits-1 for three widths and checks the big-endian store order (counter or descending range). C19.6 parses the four "
     "type-inference regexes (character-class chain bool<int<float<complex, test order, fall-through None) and interprets str2array for "
